@@ -232,9 +232,38 @@ class Inliner:
         return result or [ast.copy_location(ast.Pass(), call)]
 
     # ------------------------------------------------------------------
+    def _first_helper_call(self, test: ast.AST) -> Optional[ast.Call]:
+        """ the helper call that an `if` test evaluates first and unconditionally, if any """
+        if isinstance(test, ast.Call) and self._callee(test) is not None:
+            return test
+        if isinstance(test, ast.UnaryOp) and isinstance(test.op, ast.Not):
+            return self._first_helper_call(test.operand)
+        if isinstance(test, ast.BoolOp):
+            return self._first_helper_call(test.values[0])
+        if isinstance(test, ast.Compare):
+            return self._first_helper_call(test.left)
+        return None
+
     def _stmt(self, stmt: ast.stmt, caller_names: Set[str], level: int) -> List[ast.stmt]:
         call: Optional[ast.Call] = None
         sink = None
+        if isinstance(stmt, ast.If):
+            # `if _helper(x) and ...:` - the helper's value is computed first anyway: name it, then test the name
+            first = self._first_helper_call(stmt.test)
+            if first is not None and all(_simple(a) for a in list(first.args) + [k.value for k in first.keywords]):
+                self._if_counter = getattr(self, "_if_counter", 0) + 1
+                name = f"{self._callee(first)[0].split('.')[-1].lstrip('_')}__value{self._if_counter}"
+                assign = ast.copy_location(ast.Assign(targets=[ast.Name(id=name, ctx=ast.Store())], value=first), stmt)
+                ast.fix_missing_locations(assign)
+                expanded = self._stmt(assign, caller_names, level)
+                if not (len(expanded) == 1 and expanded[0] is assign):
+                    class _Swap(ast.NodeTransformer):
+                        def visit_Call(self, node: ast.Call) -> ast.AST:  # noqa: N802
+                            if node is first:
+                                return ast.copy_location(ast.Name(id=name, ctx=ast.Load()), node)
+                            return self.generic_visit(node)
+                    stmt.test = _Swap().visit(stmt.test)
+                    return expanded + self._stmt(stmt, caller_names, level)
         if isinstance(stmt, ast.Expr) and isinstance(stmt.value, ast.Call):
             call = stmt.value
 
